@@ -371,7 +371,7 @@ def run(ctx):
                 return "undecided", "construct outside the recognised code shapes: %s" % u
         g.check(name, "the generated method blackbirdParser.%s and the sub-ATN of rule `%s` agree on every match, rule call (with "
                 "precedence argument), precedence predicate, decision number and lookahead test, state by state, in both directions"
-                % (name, name), one, witness_families=["expr_binding"] if name == "expression" else None)
+                % (name, name), one)
     ctx.note("codegen_sim: checks the labelled sites of each rule method against the ATN edges out of the same state number, in both "
              "directions; it does not check that the control flow between the sites (loop/branch shapes, the alternative numbers "
              "compared with adaptivePredict results) follows the ATN's epsilon structure, nor error-handling and context "
@@ -379,4 +379,4 @@ def run(ctx):
     return g.obligations
 
 
-ASSUMPTIONS = ["A-antlr-tree: the parser accepts exactly the ATN's language and builds a derivation tree of it"]
+ASSUMPTIONS = ["A-antlr-tree"]
